@@ -1,6 +1,6 @@
 //! Interceptor lab (C12): an http request goes through InterceptedService(inner); the inner service records
 //! what it receives. Stimulus: {req:{method, version, uri, headers:[{n,v}], ext_a, body:[..]},
-//!   actions:[{op:"insert"|"append"|"remove"|"insert_bin"|"append_bin"|"ext"|"reject", n, v, code, msg, details, meta}]}
+//!   actions:[{op:"insert"|"append"|"remove"|"insert_bin"|"append_bin"|"ext"|"ext_remove"|"ext_replace"|"fresh"|"reject", n, v, code, msg, details, meta}]}
 use crate::labs::status::{build_meta, headers_json};
 use crate::labs::Rec;
 use crate::util::*;
@@ -36,6 +36,7 @@ pub fn run(stim: &Value, rec: &Rec) {
     let icpt = move |mut r: tonic::Request<()>| -> Result<tonic::Request<()>, Status> {
         let mut applied = vec![];
         let mut verdict: Option<Status> = None;
+        let saw_ext_a = r.extensions().get::<ExtA>().map(|x| x.0 as i64).unwrap_or(-1);      // what the interceptor was given
         for a in &actions {
             let n = a["n"].as_str().unwrap_or("");
             let v = json_bytes(&a["v"]);
@@ -46,6 +47,10 @@ pub fn run(stim: &Value, rec: &Rec) {
                 "append_bin" => match MetadataKey::<Binary>::from_bytes(n.as_bytes()) { Ok(k) => { r.metadata_mut().append_bin(k, MetadataValue::from_bytes(&v)); true } _ => false },
                 "remove" => { if n.ends_with("-bin") { r.metadata_mut().remove_bin(n); } else { r.metadata_mut().remove(n); } true }
                 "ext" => { r.extensions_mut().insert(ExtB(7)); true }
+                "ext_remove" => { r.extensions_mut().remove::<ExtA>(); true }
+                "ext_replace" => { r.extensions_mut().insert(ExtA(9)); true }
+                // a brand-new Request carrying the metadata so far: none of the incoming extensions
+                "fresh" => { let mut nr = tonic::Request::new(()); *nr.metadata_mut() = r.metadata().clone(); r = nr; true }
                 "reject" => {
                     let (meta, _) = build_meta(&a["meta"]);
                     verdict = Some(Status::with_details_and_metadata(Code::from_i32(a["code"].as_i64().unwrap_or(2) as i32),
@@ -57,7 +62,7 @@ pub fn run(stim: &Value, rec: &Rec) {
             applied.push(ok);
             if verdict.is_some() { break; }
         }
-        log2.ev(json!({"e":"icpt","applied":applied,"saw_ext_a": r.extensions().get::<ExtA>().map(|x| x.0 as i64).unwrap_or(-1)}));
+        log2.ev(json!({"e":"icpt","applied":applied,"saw_ext_a": saw_ext_a}));
         match verdict { Some(s) => Err(s), None => Ok(r) }
     };
     let mut svc = InterceptedService::new(inner, icpt);
@@ -100,7 +105,8 @@ pub fn gen(seed: u64, tier: &str) -> Vec<Value> {
             let bin = name.ends_with("-bin");
             let len = rng.gen_range(0..6);
             let v: Vec<u8> = if bin { (0..len).map(|_| rng.gen()).collect() } else { (0..len).map(|_| rng.gen_range(0x21..0x7fu8)).collect() };
-            let op = match (rng.gen_range(0..5), bin) { (0, false) => "insert", (1, false) => "append", (0, true) => "insert_bin", (1, true) => "append_bin", (2, _) => "remove", (3, _) => "ext", (_, false) => "append", (_, true) => "append_bin" };
+            let op = match (rng.gen_range(0..8), bin) { (0, false) => "insert", (1, false) => "append", (0, true) => "insert_bin", (1, true) => "append_bin", (2, _) => "remove", (3, _) => "ext",
+                (5, _) => "ext_remove", (6, _) => "ext_replace", (7, _) => "fresh", (_, false) => "append", (_, true) => "append_bin" };
             json!({"op": op, "n": name, "v": bytes_json(&v)})
         }).collect();
         if rng.gen_bool(0.3) {
